@@ -170,7 +170,12 @@ class Runtime:
                 # -- inside a throw-away copy of the context, so that observing never creates or replaces the set of
                 # the current flow (the library's getter does that as a side effect)
                 getter = getattr(chk, "_get_in_progress", None)
-                cur = contextvars.copy_context().run(getter) if getter is not None else cur[1]
+                # (the observation is the harness's own step: a preempting scheduler must not split it)
+                self.tls.observing = True
+                try:
+                    cur = contextvars.copy_context().run(getter) if getter is not None else cur[1]
+                finally:
+                    self.tls.observing = False
             out = []
             for x in cur:
                 if isinstance(x, tuple) and x:
